@@ -446,6 +446,19 @@ func (rn *runner) evalRangeObj(f, l, ip uint32) *caseResult {
 	return c
 }
 
+// canonRanges: non-inverted, strictly increasing, more than one address apart (what fipCheck accepts).
+func canonRanges(rs [][2]uint32) bool {
+	for i, x := range rs {
+		if x[0] > x[1] {
+			return false
+		}
+		if i > 0 && uint64(x[0]) <= uint64(rs[i-1][1])+1 {
+			return false
+		}
+	}
+	return true
+}
+
 func parseRangesArg(s string) ([][2]uint32, bool) {
 	if s == "-" {
 		return nil, true
@@ -488,6 +501,86 @@ func (rn *runner) evalRanges(rsArg string, ip uint32, stopArg string) *caseResul
 	}
 	c.model = []string{"size " + rsArg, fmt.Sprintf("pcontains %s %d", rsArg, ip)}
 	c.impl = []string{fmt.Sprint(size), fmt.Sprint(cont)}
+	// FloatingIPPool.InsertIP / RemoveIP on copies of the list (they edit the slice in place); the pool's subnet
+	// is a deterministic function of the case so that replays agree: 0.0.0.0/0, or a /29 around the first range
+	{
+		gw, pl := uint32(0), 0
+		if ip%4 == 1 {
+			pl = 29
+			gw = ip ^ 8
+			if len(rs) > 0 {
+				gw = rs[0][0]
+			}
+		}
+		showRs := func(l []nets.IPRange) string {
+			if len(l) == 0 {
+				return "-"
+			}
+			var ps []string
+			for _, x := range l {
+				f, _ := netsh.U32(x.First)
+				la, _ := netsh.U32(x.Last)
+				ps = append(ps, fmt.Sprintf("%d-%d", f, la))
+			}
+			return strings.Join(ps, ";")
+		}
+		for _, which := range []string{"insert", "remove"} {
+			q := &floatingip.FloatingIPPool{SparseSubnet: nets.SparseSubnet{IPRanges: append([]nets.IPRange(nil), rr...),
+				Gateway: netsh.IP4(gw), Mask: net.CIDRMask(pl, 32)}}
+			var ok bool
+			if !rn.guard(c, "FloatingIPPool."+which, func() {
+				if which == "insert" {
+					ok = q.InsertIP(netsh.IP4(ip))
+				} else {
+					ok = q.RemoveIP(netsh.IP4(ip))
+				}
+			}) {
+				return c
+			}
+			rn.r.Hit(fmt.Sprintf("%s:%v", which, ok))
+			c.model = append(c.model, fmt.Sprintf("%s %s %d %d %d", which, rsArg, gw, pl, ip))
+			c.impl = append(c.impl, fmt.Sprintf("%v %s", ok, showRs(q.IPRanges)))
+			// monitor (independent of the model) on canonical lists: the edited list holds exactly the old addresses
+			// plus / minus ip, and is again sorted, non-inverted and not mergeable
+			if canonRanges(rs) && total <= netsh.MaxEnum {
+				wantSet := map[uint32]bool{}
+				for _, x := range rs {
+					for a := uint64(x[0]); a <= uint64(x[1]); a++ {
+						wantSet[uint32(a)] = true
+					}
+				}
+				inSub := pl == 0 || (ip>>3) == (gw>>3)
+				wantOK := inSub && (wantSet[ip] == (which == "remove"))
+				if wantOK {
+					if which == "insert" {
+						wantSet[ip] = true
+					} else {
+						delete(wantSet, ip)
+					}
+				}
+				var after [][2]uint32
+				gotSet := map[uint32]bool{}
+				for _, x := range q.IPRanges {
+					f, _ := netsh.U32(x.First)
+					la, _ := netsh.U32(x.Last)
+					after = append(after, [2]uint32{f, la})
+					for a := uint64(f); a <= uint64(la) && len(gotSet) <= len(wantSet)+2; a++ {
+						gotSet[uint32(a)] = true
+					}
+				}
+				same := len(gotSet) == len(wantSet)
+				for a := range wantSet {
+					if !gotSet[a] {
+						same = false
+					}
+				}
+				if ok != wantOK || !same || !canonRanges(after) {
+					c.vs = append(c.vs, netsh.V{Sig: "edit:" + which + "-wrong", What: fmt.Sprintf("%s of %d into %s (subnet %d/%d) answered %v and left %s",
+						which, ip, rsArg, gw, pl, ok, showRs(q.IPRanges))})
+				}
+			}
+		}
+	}
 	if total <= netsh.MaxEnum {
 		var stop *uint32
 		if stopArg != "-" {
@@ -551,6 +644,7 @@ func (rn *runner) evalReload(texts []string) *caseResult {
 	// ConfigurePool enumerates every address of every pool into a map: configurations with more than MaxEnum
 	// addresses (e.g. 0.0.0.0/0 pools, outside C20's quantifier) are not fed to the real IPAM
 	for _, text := range texts {
+		text = strings.TrimPrefix(text, netsh.FailPrefix)
 		if pools, o := netsh.DecodeConf(text); o == "ok" && netsh.ExpectedAddresses(pools) == nil {
 			rn.r.Hit("reload:skipped(pool-too-large-to-configure)")
 			return c
@@ -563,10 +657,17 @@ func (rn *runner) evalReload(texts []string) *caseResult {
 	lastLow := ""
 	allocated := false
 	for i, text := range texts {
+		failing := strings.HasPrefix(text, netsh.FailPrefix)
+		text = strings.TrimPrefix(text, netsh.FailPrefix)
 		before := rl.Snap()
+		rl.FailList = failing
 		outcome := rl.Step(text, &c.vs)
+		rl.FailList = false
 		if outcome == "crash" {
 			return c
+		}
+		if failing {
+			rn.r.Hit("reload:store-failure-injected:" + outcome)
 		}
 		after := rl.Snap()
 		rn.r.Hit("reload:" + outcome)
@@ -579,7 +680,7 @@ func (rn *runner) evalReload(texts []string) *caseResult {
 			if outcome == "unchanged" && text != before.Last {
 				c.vs = append(c.vs, netsh.V{Sig: "reload:new-text-ignored", What: fmt.Sprintf("reload %d", i)})
 			}
-			if outcome == "rejected" && dec == "ok" {
+			if outcome == "rejected" && dec == "ok" && !failing {
 				c.vs = append(c.vs, netsh.V{Sig: "reload:valid-configuration-rejected", What: fmt.Sprintf("reload %d", i)})
 			}
 		case "configured":
@@ -618,7 +719,11 @@ func (rn *runner) evalReload(texts []string) *caseResult {
 				impl = "" // two different texts with the same lowering: only the text comparison differs
 				compare = false
 			}
-			c.model = append(c.model, "reload "+low)
+			if failing {
+				c.model = append(c.model, "reloadf "+low)
+			} else {
+				c.model = append(c.model, "reload "+low)
+			}
 			c.impl = append(c.impl, impl)
 			c.canonModel = append(c.canonModel, canonReloadAnswer)
 		}
@@ -946,6 +1051,34 @@ func (rn *runner) genTexts(n int) {
 func (rn *runner) genRanges(n int) {
 	r := rn.e.Rng
 	for i := 0; i < n; i++ {
+		if r.Intn(2) == 0 {
+			// a canonical list (what an accepted pool holds) and an address in or next to it: InsertIP / RemoveIP
+			// with merges of neighbours two apart, splits, shrinking at either end, single-address ranges
+			k := 1 + r.Intn(4)
+			cur := uint64(boundaryAddr(r))
+			var parts []string
+			lo, hi := cur, cur
+			for j := 0; j < k && cur <= 0xFFFFFFFF; j++ {
+				l := cur + uint64(r.Intn(5))
+				if l > 0xFFFFFFFF {
+					l = 0xFFFFFFFF
+				}
+				parts = append(parts, fmt.Sprintf("%d-%d", cur, l))
+				hi = l
+				cur = l + 2 + uint64(r.Intn(3))
+			}
+			span := hi - lo + 5
+			a := lo + uint64(r.Intn(int(span)))
+			if a >= 2 {
+				a -= 2
+			}
+			if a > 0xFFFFFFFF {
+				a = 0xFFFFFFFF
+			}
+			rn.r.Hit("ranges-gen:canonical")
+			rn.add(rn.eval(fmt.Sprintf("ranges %s %d -", strings.Join(parts, ";"), uint32(a))))
+			continue
+		}
 		k := r.Intn(4)
 		var parts []string
 		var firstAddr uint32
@@ -1000,6 +1133,14 @@ func (rn *runner) genReloads(n int) {
 				d, kind := netsh.Mutate(r, ps)
 				rn.r.Hit("reload-gen:" + kind)
 				texts = append(texts, d.Text())
+			}
+			// a ConfigurePool that fails (store list error), followed by the same text with a working store
+			if r.Intn(4) == 0 {
+				t := texts[len(texts)-1]
+				texts[len(texts)-1] = netsh.FailPrefix + t
+				if r.Intn(4) != 0 {
+					texts = append(texts, t)
+				}
 			}
 		}
 		rn.add(rn.eval(reloadOp(texts)))
